@@ -22,7 +22,7 @@ Explain(r) ==
                 j \in {x \in DOMAIN r.lits : (r.lits[x].acc = 1) # Expected(r, r.lits[x])}}>>)
 
 Init == l = 1
-Next == l <= Len(Rec) /\ l' = l + 1 /\ (Rec[l].ev = "Init" \/ Count(Rec[l]) \/ (IOEnv.EXPLAIN = "1" /\ Explain(Rec[l]) /\ FALSE))
+Next == l <= Len(Rec) /\ l' = l + 1 /\ (IF Rec[l].ev = "Init" \/ Count(Rec[l]) THEN TRUE ELSE (IOEnv.EXPLAIN = "1" /\ Explain(Rec[l]) /\ FALSE))
 TSpec == Init /\ [][Next]_l
 Accepted ==
     LET d == TLCGet("stats").diameter IN
